@@ -178,6 +178,7 @@ def run(ctx, rep):
     r01_1_2(ctx, rep)
     r01_4(ctx, rep)
     r01_7(ctx, rep)
+    r01_9(ctx, rep)
 
 
 def _tables(ctx, rep):
@@ -212,6 +213,57 @@ def _tables(ctx, rep):
             rep.violation("R01.3", "%s|%s" % (v, sig[0][:110]), "transition table of %s" % v,
                           "the state transition for %s differs from the sequential specification: %s" % (v, detail[:700]), where=g.where(g.entry))
     return key
+
+
+def r01_9(ctx, rep):
+    """R01.9: a validator that runs ahead of the journal (any fn(&RaftLogState, &WALRecord) -> Result<(), RaftLogStateError>) refuses exactly what
+    the reference refuses: its Err rows per variant are rows of spec/state_tables.json, and it assigns nothing."""
+    rep.rule("R01.9", "a pre-journal validator (role discovered by type: fn(&RaftLogState, &WALRecord) -> Result<(), RaftLogStateError>, called by a "
+                      "write operation) refuses only what the reference refuses: every Err row of its decision table, per record variant, is an "
+                      "Err row of spec/state_tables.json with the same predicates and error kind (a stricter validator turns writes the "
+                      "sequential specification accepts into errors); it assigns no state")
+    with open(os.path.join(VERIF, "spec", "state_tables.json")) as f:
+        spec = json.load(f)
+    cands = [b["key"] for b in ctx.facts.doc["bodies"]
+             if re.search(r"^for<'a, 'b> fn\(&'a [\w:]*RaftLogState<T>, &'b [\w:]*WALRecord<T>\) -> std::result::Result<\(\), [\w:]*RaftLogStateError<T>>$", b.get("sig", ""))]
+    used = []
+    for wk in ctx.write_entries():
+        gw = ctx.graph(wk)
+        for i in gw.insts:
+            if i.key in cands and i.key not in used:
+                used.append(i.key)
+    if not used:
+        rep.ok("R01.9", "no separate validator", "no function of the validator type is called by a write operation: refusals are decided by "
+               "apply's tables alone (R01.3)", nontrivial=False)
+        return
+    for key in used:
+        g, P, rows = extract_rows(ctx, key, ("arg", 1), ("arg", 2), (), (0, 2, ("*",)))
+        nm = short_key(key).split("::")[-1]
+        n_err = 0
+        for v, got in sorted(rows.items(), key=str):
+            ref = spec.get(v)
+            if ref is None:
+                continue
+            want_err = {(frozenset((k, bool(val)) for k, val in row["when"].items()), row["result"]) for row in ref if row["result"].startswith("Err")}
+            for (facts, assigns, result) in sorted(got, key=str):
+                if assigns:
+                    rep.violation("R01.9", "%s|%s|validator-assigns" % (nm, v), "validator %s, %s" % (nm, v),
+                                  "the validator changes the stored state: %s" % sorted(assigns), where=g.where(g.entry))
+                if not result.startswith("Err"):
+                    continue
+                n_err += 1
+                if (facts, result) in want_err:
+                    rep.ok("R01.9", "%s: %s refuses %s" % (nm, v, result), "when {%s}: a reference refusal" % ", ".join("%s=%s" % kv for kv in sorted(facts)),
+                           where=g.where(g.entry))
+                else:
+                    rep.violation("R01.9", "%s|%s|refusal-not-in-reference:%s" % (nm, v, ", ".join("%s=%s" % kv for kv in sorted(facts))[:90]),
+                                  "validator %s, %s" % (nm, v),
+                                  "the validator refuses (%s) when {%s}; the sequential specification has no such refusal for %s (its refusals: %s): a "
+                                  "write the reference log accepts returns an error" %
+                                  (result, ", ".join("%s=%s" % kv for kv in sorted(facts)), v,
+                                   " | ".join("{%s} -> %s" % (", ".join("%s=%s" % kv for kv in sorted(f_)), r_) for f_, r_ in sorted(want_err, key=str)) or "none"),
+                                  where=g.where(g.entry))
+        rep.floor("R01.9", "Err rows of validator %s" % nm, n_err, 3)
 
 
 # --------------------------------------------------------------------------------------
